@@ -1,6 +1,7 @@
 package nc
 
 import (
+	"fmt"
 	"go/constant"
 	"go/token"
 	"go/types"
@@ -957,5 +958,891 @@ func c19ExpandPairs(fn *ssa.Function, leaves []retLeaf, n int) []retLeaf {
 			out = append(out, lf)
 		}
 	}
+	return out
+}
+
+// ---- fourth round: emptiness in every spelling, exact counts, "empty value exactly when empty" ----
+
+// c19NumConst: v is a numeric constant; returns it.
+func c19NumConst(v ssa.Value) (constant.Value, bool) {
+	c, ok := v.(*ssa.Const)
+	if !ok || c.Value == nil || (c.Value.Kind() != constant.Int && c.Value.Kind() != constant.Float) {
+		return nil, false
+	}
+	return c.Value, true
+}
+
+// c19ConstIs: v is the numeric constant k (an integer or a floating-point constant of that value).
+func c19ConstIs(v ssa.Value, k int64) bool {
+	c, ok := c19NumConst(v)
+	return ok && constant.Compare(c, token.EQL, constant.MakeInt64(k))
+}
+
+// c19NatFact: what the branch outcome g says about a quantity q that is a natural number (a length, a
+// counter that starts at 0 and is only incremented): zero (q == 0 holds) or nonZero (q != 0 holds).
+// The outcome is first turned into a comparison that holds (CmpFact removes negations, complements the
+// operator of a branch not taken and moves a constant to the right), then decided with q >= 0:
+//
+//	q == 0, q <= 0, q < 1            -> zero          q != 0, q > 0, q >= 1, q > k (k >= 0), q >= k, q == k (k >= 1) -> nonZero
+//
+// Anything that only bounds q (q <= 1, q < 2, q != 3) says neither.
+func c19NatFact(g Guard, is func(ssa.Value) bool) (zero, nonZero bool) {
+	x, y, op, ok := CmpFact(g.Cond, g.True)
+	if !ok {
+		return false, false
+	}
+	if !is(x) {
+		// both operands non-constant is not a fact about q and a constant; a constant on the left was moved by CmpFact
+		return false, false
+	}
+	k, isC := c19NumConst(y)
+	if !isC {
+		return false, false
+	}
+	cmp := func(o token.Token, n int64) bool { return constant.Compare(k, o, constant.MakeInt64(n)) }
+	switch op {
+	case token.EQL:
+		return cmp(token.EQL, 0), cmp(token.GTR, 0)
+	case token.NEQ:
+		return false, cmp(token.EQL, 0)
+	case token.LEQ:
+		return cmp(token.LSS, 1), false
+	case token.LSS:
+		return cmp(token.LEQ, 1), false
+	case token.GTR:
+		return false, cmp(token.GEQ, 0)
+	case token.GEQ:
+		return false, cmp(token.GTR, 0)
+	}
+	return false, false
+}
+
+// c19LenFact: what g says about len(of): empty (len == 0 holds) or nonEmpty (len != 0 holds).
+func c19LenFact(tm *Termer, g Guard, of string) (empty, nonEmpty bool) {
+	return c19NatFact(g, func(v ssa.Value) bool {
+		t := tm.Of(v)
+		return t != nil && t.Op == "len" && len(t.Args) == 1 && t.Args[0].String() == of
+	})
+}
+
+// c19AnyEmpty / c19AnyNonEmpty: some outcome of gs establishes len(of) == 0 / len(of) != 0.
+func c19AnyEmpty(tm *Termer, gs []Guard, of string) bool {
+	for _, g := range gs {
+		if e, _ := c19LenFact(tm, g, of); e {
+			return true
+		}
+	}
+	return false
+}
+
+func c19AnyNonEmpty(tm *Termer, gs []Guard, of string) bool {
+	for _, g := range gs {
+		if _, ne := c19LenFact(tm, g, of); ne {
+			return true
+		}
+	}
+	return false
+}
+
+// c19FullRange: the loop l visits the elements of `list` one by one from the first to the last: it
+// stays in the loop exactly while iv < len(list) (either operand order, either branch polarity), where
+// iv - the value the elements are indexed with - runs 0, 1, 2, ...: a header phi that starts at 0 and
+// receives itself plus one over every back edge (`for i := 0; i < n; i++`), or such a phi starting at -1
+// plus one (the form `range` compiles to). Returns iv.
+func c19FullRange(tm *Termer, l *Loop, list string) (ssa.Value, bool) {
+	if l == nil {
+		return nil, false
+	}
+	iff, ok := l.Header.Instrs[len(l.Header.Instrs)-1].(*ssa.If)
+	if !ok || len(l.Header.Succs) != 2 {
+		return nil, false
+	}
+	inT, inF := l.Blocks[l.Header.Succs[0]], l.Blocks[l.Header.Succs[1]]
+	if inT == inF {
+		return nil, false
+	}
+	x, y, op, ok := CmpFact(iff.Cond, inT)
+	if !ok {
+		return nil, false
+	}
+	var iv, n ssa.Value
+	switch op {
+	case token.LSS:
+		iv, n = x, y
+	case token.GTR:
+		iv, n = y, x
+	default:
+		return nil, false
+	}
+	if nt := tm.Of(n); nt == nil || nt.Op != "len" || len(nt.Args) != 1 || nt.Args[0].String() != list {
+		return nil, false
+	}
+	stepOf := func(v ssa.Value) *ssa.Phi {
+		b, ok := v.(*ssa.BinOp)
+		if !ok || b.Op != token.ADD {
+			return nil
+		}
+		if ph, isPhi := b.X.(*ssa.Phi); isPhi && c19ConstIs(b.Y, 1) {
+			return ph
+		}
+		if ph, isPhi := b.Y.(*ssa.Phi); isPhi && c19ConstIs(b.X, 1) {
+			return ph
+		}
+		return nil
+	}
+	var ph *ssa.Phi
+	first := int64(0)
+	switch v := iv.(type) {
+	case *ssa.Phi:
+		ph = v
+	case *ssa.BinOp:
+		ph, first = stepOf(v), -1
+	}
+	if ph == nil || ph.Block() != l.Header {
+		return nil, false
+	}
+	inside := 0
+	for i, e := range ph.Edges {
+		if l.Blocks[ph.Block().Preds[i]] {
+			inside++
+			if first == 0 {
+				if stepOf(e) != ph {
+					return nil, false
+				}
+			} else if e != iv {
+				return nil, false
+			}
+		} else if !c19ConstIs(e, first) {
+			return nil, false
+		}
+	}
+	return iv, inside > 0
+}
+
+// c19ElemOf: t mentions the element of `list` at index iv (the element the current iteration looks at);
+// with iv == nil, any element of the list.
+func c19ElemOf(t *Term, list string, iv ssa.Value) bool {
+	return t.Has(func(x *Term) bool {
+		return x.Op == "elem" && len(x.Args) > 1 && x.Args[0].String() == list && (iv == nil || x.Args[1].V == iv)
+	})
+}
+
+// c19CallOutcome: the outcome, on a path with branch outcomes gs, of a call of fn whose first argument
+// mentions the current element of list: +1 it returned true, -1 false, 0 not asked on this path.
+func c19CallOutcome(tm *Termer, gs []Guard, fn *ssa.Function, list string, iv ssa.Value) int {
+	res := 0
+	for _, g := range gs {
+		cond, out := g.Cond, g.True
+		for {
+			if u, isU := cond.(*ssa.UnOp); isU && u.Op == token.NOT {
+				cond, out = u.X, !out
+				continue
+			}
+			break
+		}
+		c, ok := cond.(*ssa.Call)
+		if !ok || fn == nil || c.Call.StaticCallee() != fn || len(c.Call.Args) == 0 {
+			continue
+		}
+		if !c19ElemOf(tm.Of(c.Call.Args[0]), list, iv) {
+			continue
+		}
+		if out {
+			res = 1
+		} else {
+			res = -1
+		}
+	}
+	return res
+}
+
+// c19Sum states how an accumulator is obliged to grow: in an iteration of a loop over `list` with
+// element index iv, on the path ip, Want says how many values are to be added (0 or 1; -1 = this path
+// must not exist, with the reason) and Add decides whether the value added is the right one.
+type c19Sum struct {
+	List string
+	Want func(tm *Termer, ip *IterPath, iv ssa.Value) (int, string)
+	Add  func(tm *Termer, add ssa.Value, iv ssa.Value) bool
+}
+
+// c19SumOver proves that the value v a function uses after a loop is the sum, over EVERY element of
+// spec.List, of what spec says the element contributes:
+//
+//   - v belongs to a web of phi nodes whose only constants are 0 and whose other inputs are all computed
+//     inside one loop (nothing adds to it before or after the scan), and exactly one phi of the web is a
+//     header phi of that loop;
+//   - the loop visits every element of the list, first to last (c19FullRange);
+//   - every acyclic path through one iteration either returns to the header - then the accumulator grew
+//     by exactly what spec wants for this path (path-resolved difference between the header phi and the
+//     value it receives over the back edge) - or is the header's own exit; a path that leaves the loop
+//     from the body (break, return) would leave the remaining elements out.
+//
+// Returns the loop and "" when that is proved, otherwise what is wrong.
+func c19SumOver(fn *ssa.Function, tm *Termer, v ssa.Value, spec c19Sum) (*Loop, string) {
+	for {
+		if cv, ok := v.(*ssa.Convert); ok {
+			v = cv.X
+			continue
+		}
+		break
+	}
+	if _, isPhi := v.(*ssa.Phi); !isPhi {
+		return nil, tm.Of(v).String() + " is not accumulated by a loop over " + spec.List
+	}
+	w := phiWeb(v)
+	if w.HasNil {
+		return nil, "not a number"
+	}
+	for _, c := range w.Consts {
+		if !c19ConstIs(c, 0) {
+			return nil, "the accumulator starts at " + tm.Of(c).String() + ", not at 0"
+		}
+	}
+	loops := Loops(fn)
+	var l *Loop
+	var hp *ssa.Phi
+	for ph := range w.Phis {
+		for _, cand := range loops {
+			if cand.Header != ph.Block() {
+				continue
+			}
+			if hp != nil && hp != ph {
+				return nil, "the accumulator is carried by more than one loop"
+			}
+			hp, l = ph, cand
+		}
+	}
+	if hp == nil {
+		return nil, "the accumulator is not carried by a loop"
+	}
+	for _, f := range w.Feeders {
+		in, ok := f.(ssa.Instruction)
+		if !ok || in.Block() == nil || !l.Blocks[in.Block()] {
+			return nil, "the accumulator also receives " + tm.Of(f).String() + " outside the scan of " + spec.List
+		}
+	}
+	iv, ok := c19FullRange(tm, l, spec.List)
+	if !ok {
+		return nil, "the loop that accumulates does not visit every element of " + spec.List + " (index from 0, step 1, while index < len(" + spec.List + "))"
+	}
+	paths, complete := EnumIterPaths(fn, l, 512)
+	if !complete {
+		return nil, "too many paths through one iteration"
+	}
+	nBack := 0
+	for _, ip := range paths {
+		// the header's own exit (a block that only returns is folded into the path and reported as "return")
+		if (ip.End == "exit" || ip.End == "return") && len(ip.Blocks) == 2 && ip.Blocks[0] == l.Header {
+			continue
+		}
+		switch ip.End {
+		case "return":
+			return nil, "an iteration returns from the function: the elements after it are not visited"
+		case "exit":
+			return nil, "an iteration leaves the loop from its body (break): the elements after it are not visited"
+		case "back":
+		default:
+			continue
+		}
+		nBack++
+		want, why := spec.Want(tm, ip, iv)
+		if want < 0 {
+			return nil, why
+		}
+		next := ip.NextValue(hp)
+		if next == nil {
+			return nil, "the value carried into the next iteration is not known"
+		}
+		adds, subs, okD := ip.Delta(next, hp)
+		if !okD || len(subs) > 0 {
+			return nil, "an iteration changes the accumulator by something other than additions (" + tm.Of(next).String() + ")"
+		}
+		if len(adds) != want {
+			if want == 0 {
+				return nil, "an iteration that must not contribute adds " + tm.Of(adds[0]).String()
+			}
+			return nil, fmt.Sprintf("an iteration that must contribute once adds %d values", len(adds))
+		}
+		for _, a := range adds {
+			if !spec.Add(tm, a, iv) {
+				return nil, "an iteration adds " + tm.Of(a).String() + ", which is not the contribution of the element visited"
+			}
+		}
+	}
+	if nBack == 0 {
+		return nil, "no iteration returns to the loop header"
+	}
+	return l, ""
+}
+
+// c19ReachedUnless: every acyclic path from the entry of fn to a return that does not pass the header
+// of l carries branch outcomes accepted by `excused` (e.g. "the list is empty"). Then for every input
+// that is not excused the loop is executed before anything is returned. Returns "" or the offending path.
+func c19ReachedUnless(p *Prog, fn *ssa.Function, tm *Termer, l *Loop, excused func([]Guard) bool) string {
+	if len(fn.Blocks) == 0 || l == nil {
+		return "no loop"
+	}
+	if fn.Blocks[0] == l.Header {
+		return ""
+	}
+	paths, complete := EnumRegionPaths(fn, fn.Blocks[0], func(b *ssa.BasicBlock) bool { return b == l.Header }, 512)
+	if !complete {
+		return "too many paths to the loop"
+	}
+	for _, ip := range paths {
+		if ip.End != "return" || excused(ip.Conds) {
+			continue
+		}
+		var cs []string
+		for _, g := range ip.Conds {
+			s := tm.Of(g.Cond).String()
+			if !g.True {
+				s = "!(" + s + ")"
+			}
+			cs = append(cs, s)
+		}
+		if len(cs) == 0 {
+			cs = []string{"unconditionally"}
+		}
+		return "a result is returned without the scan when " + strings.Join(cs, " && ")
+	}
+	return ""
+}
+
+// c19IsGlobalLoad: v reads a package-level variable (EmptyDuration).
+func c19IsGlobalLoad(v ssa.Value) bool {
+	u, ok := v.(*ssa.UnOp)
+	if !ok || u.Op != token.MUL {
+		return false
+	}
+	_, isG := u.X.(*ssa.Global)
+	return isG
+}
+
+// c19LeafGuards: the branch outcomes known where the leaf's value is computed and where it is returned.
+func c19LeafGuards(lf retLeaf) []Guard {
+	gs := append([]Guard{}, lf.Guards...)
+	if in, ok := lf.Val.(ssa.Instruction); ok && in.Block() != nil {
+		gs = append(gs, Guards(in.Block())...)
+	}
+	return gs
+}
+
+// c19StripConv removes numeric conversions.
+func c19StripConv(v ssa.Value) ssa.Value {
+	for {
+		if cv, ok := v.(*ssa.Convert); ok {
+			v = cv.X
+			continue
+		}
+		return v
+	}
+}
+
+// c19FieldOutcome: the outcome, among the branch outcomes gs, of a test of the boolean field `name` of
+// the current element of list: +1 the field is true, -1 false, 0 not tested.
+func c19FieldOutcome(tm *Termer, gs []Guard, name, list string, iv ssa.Value) int {
+	res := 0
+	for _, g := range gs {
+		cond, out := g.Cond, g.True
+		for {
+			if u, isU := cond.(*ssa.UnOp); isU && u.Op == token.NOT {
+				cond, out = u.X, !out
+				continue
+			}
+			break
+		}
+		t := tm.Of(cond)
+		if t == nil || t.Op != "field" || t.Name != name || !c19ElemOf(t, list, iv) {
+			continue
+		}
+		if out {
+			res = 1
+		} else {
+			res = -1
+		}
+	}
+	return res
+}
+
+// c19PathResult: the value result idx has when the path ends in a return (nil otherwise): the operand of
+// the return instruction the path's last block ends in or jumps to, with the phis resolved along the path.
+func c19PathResult(ip *IterPath, idx int) ssa.Value {
+	if len(ip.Blocks) == 0 {
+		return nil
+	}
+	// a `break` block lies outside the natural loop and jumps on: follow unconditional jumps to the return
+	blocks := append([]*ssa.BasicBlock{}, ip.Blocks...)
+	last := blocks[len(blocks)-1]
+	for steps := 0; steps < 8; steps++ {
+		if _, isJ := last.Instrs[len(last.Instrs)-1].(*ssa.Jump); !isJ || len(last.Succs) != 1 {
+			break
+		}
+		last = last.Succs[0]
+		blocks = append(blocks, last)
+	}
+	ret, ok := last.Instrs[len(last.Instrs)-1].(*ssa.Return)
+	if !ok || idx >= len(ret.Results) {
+		return nil
+	}
+	sub := &IterPath{Blocks: blocks, End: "partial"}
+	return sub.Resolve(ret.Results[idx])
+}
+
+// c19Exists proves that the boolean function fn returns true exactly when some element of list satisfies
+// pred (pred reports the outcome of the element test among the branch outcomes of a path: +1/-1/0):
+//
+//   - one loop visits the elements of the list from the first on (c19FullRange), and every path from the
+//     entry to a return that does not run it is one on which the list is empty;
+//   - in an iteration: where the test is true the function returns true at once; where it is false the
+//     iteration goes on to the next element; when the elements are exhausted (the header's exit) the
+//     function returns false; there is no other way through an iteration;
+//   - outside an element test that came out true, true is not returned anywhere.
+func c19Exists(p *Prog, fn *ssa.Function, tm *Termer, list string, pred func(gs []Guard, iv ssa.Value) int) string {
+	var l *Loop
+	var iv ssa.Value
+	for _, cand := range Loops(fn) {
+		if v, ok := c19FullRange(tm, cand, list); ok {
+			if l != nil {
+				return "more than one loop over " + list
+			}
+			l, iv = cand, v
+		}
+	}
+	if l == nil {
+		return "no loop visits every element of " + list
+	}
+	if w := c19ReachedUnless(p, fn, tm, l, func(gs []Guard) bool { return c19AnyEmpty(tm, gs, list) }); w != "" {
+		return w
+	}
+	paths, complete := EnumIterPaths(fn, l, 256)
+	if !complete {
+		return "too many paths through one iteration"
+	}
+	for _, ip := range paths {
+		res := c19PathResult(ip, 0)
+		if ip.End != "back" && len(ip.Blocks) == 2 && ip.Blocks[0] == l.Header {
+			if res == nil || !IsConstBool(res, false) {
+				return "when no element is left the function does not return false"
+			}
+			continue
+		}
+		switch pred(ip.Conds, iv) {
+		case 1:
+			if ip.End == "back" || res == nil || !IsConstBool(res, true) {
+				return "an element that satisfies the test does not make the function return true"
+			}
+		case -1:
+			if ip.End != "back" {
+				return "an element that fails the test ends the scan: the elements after it are not looked at"
+			}
+		default:
+			return "an iteration does not test the element it visits"
+		}
+	}
+	for _, lf := range retLeaves(fn, 0) {
+		if IsConstBool(lf.Val, false) {
+			continue
+		}
+		if !IsConstBool(lf.Val, true) {
+			return "returns " + tm.Of(lf.Val).String()
+		}
+		if pred(lf.Guards, nil) != 1 {
+			return "true is returned where no element was found to satisfy the test"
+		}
+	}
+	return ""
+}
+
+// ---- series elements: stored exactly when the statistic is defined ----
+
+func c19Strip(t *Term) string { return strings.NewReplacer(" ", "", "&", "").Replace(t.String()) }
+
+// c19Undefined: the branch outcomes gs say that the value whose origin term is vt cannot be computed for
+// the current element - a pointer on the way to it is nil (`e.Champion == nil` for e.Champion.Fitness),
+// the lookup that yields it reported "not found" (the boolean result of the call whose first result the
+// term starts from is false), or it equals the math.MaxInt "no value" sentinel. The facts are read
+// from the outcomes in whatever spelling (CmpFact / GuardNilness); which pointers matter is read from the
+// term itself, not from names.
+func c19Undefined(tm *Termer, gs []Guard, vt *Term) (bool, string) {
+	sub := map[string]bool{}
+	vt.Walk(func(x *Term) bool {
+		sub[c19Strip(x)] = true
+		return true
+	})
+	maxInt := constant.MakeInt64(int64(^uint(0) >> 1))
+	for _, g := range gs {
+		if GuardNilness(g, func(v ssa.Value) bool {
+			if _, isPtr := v.Type().Underlying().(*types.Pointer); !isPtr {
+				return false
+			}
+			return sub[c19Strip(tm.Of(v))]
+		}) == 1 {
+			return true, "a pointer it is read through is nil"
+		}
+		cond, out := g.Cond, g.True
+		for {
+			if u, isU := cond.(*ssa.UnOp); isU && u.Op == token.NOT {
+				cond, out = u.X, !out
+				continue
+			}
+			break
+		}
+		if ex, isEx := cond.(*ssa.Extract); isEx && !out && ex.Index > 0 {
+			if vt.Has(func(x *Term) bool {
+				return x.Op == "extract" && x.Idx == 0 && len(x.Args) == 1 && x.Args[0].V == ex.Tuple
+			}) {
+				return true, "the lookup reported that there is none"
+			}
+		}
+		if x, y, op, ok := CmpFact(g.Cond, g.True); ok && op == token.EQL {
+			if c, isC := c19NumConst(y); isC && constant.Compare(c, token.EQL, maxInt) && sub[c19Strip(tm.Of(x))] {
+				return true, "it is the math.MaxInt sentinel"
+			}
+		}
+	}
+	return false, ""
+}
+
+// c19StoredWhenDefined: the element store st (series[i] = v inside a loop over list) is executed in
+// exactly those iterations in which v is defined for the element visited: on every path through one
+// iteration the store is on the path if and only if no branch outcome of the path says the value is
+// undefined (c19Undefined); the index stored is the index of the element visited; the loop visits every
+// element and is not left from its body. An element that is skipped although its statistic is defined
+// stays 0; a store on a path on which a pointer of the value is nil panics.
+func c19StoredWhenDefined(fn *ssa.Function, tm *Termer, st *ssa.Store, list string, nillable map[types.Object]bool) string {
+	ia, ok := st.Addr.(*ssa.IndexAddr)
+	if !ok {
+		return "not an element store"
+	}
+	l := InnermostLoop(Loops(fn), st.Block())
+	if l == nil {
+		return "the element store is not in a loop"
+	}
+	iv, ok := c19FullRange(tm, l, list)
+	if !ok {
+		return "the loop around the element store does not visit every element of " + list
+	}
+	if ia.Index != iv {
+		return "the index stored is not the index of the element visited"
+	}
+	paths, complete := EnumIterPaths(fn, l, 512)
+	if !complete {
+		return "too many paths through one iteration"
+	}
+	vt := tm.Of(st.Val)
+	for _, ip := range paths {
+		if ip.End != "back" {
+			if len(ip.Blocks) == 2 && ip.Blocks[0] == l.Header {
+				continue
+			}
+			return "an iteration leaves the loop from its body: the elements after it stay 0"
+		}
+		undef, why := c19Undefined(tm, ip.Conds, vt)
+		on := ip.OnPath(st)
+		if on && undef {
+			return "the element is stored on a path on which " + why
+		}
+		if on {
+			// every pointer field the value is read through that the package itself treats as possibly nil
+			// is known to be non-nil on this path
+			for _, pt := range c19DerefdNillable(vt, nillable) {
+				known := false
+				for _, g := range ip.Conds {
+					if GuardNilness(g, func(v ssa.Value) bool { return c19Strip(tm.Of(v)) == c19Strip(pt) }) == -1 {
+						known = true
+					}
+				}
+				if !known {
+					return "the element is computed through " + pt.String() + ", which may be nil (the package tests it elsewhere), on a path on which it is not known to be non-nil: the accessor panics for such a record"
+				}
+			}
+		}
+		if !on && !undef {
+			var cs []string
+			for _, g := range ip.Conds {
+				c := tm.Of(g.Cond).String()
+				if !g.True {
+					c = "!(" + c + ")"
+				}
+				cs = append(cs, c)
+			}
+			return "the element is left at 0 on a path on which nothing says its statistic is undefined (" + strings.Join(cs, " && ") + ")"
+		}
+	}
+	return ""
+}
+
+// ---- a slice collected by append in a loop ----
+
+// c19VarargElems: v is the implicit slice of a variadic call (`append(s, a, b)` passes t[:] of a fresh
+// [n]T whose elements were stored one by one through constant indices just before); returns the n values.
+// The array is used for nothing else: each element address only by its store, the slice only by the call.
+func c19VarargElems(v ssa.Value) ([]ssa.Value, bool) {
+	sl, ok := v.(*ssa.Slice)
+	if !ok || sl.Low != nil || sl.High != nil || sl.Max != nil {
+		return nil, false
+	}
+	al, ok := sl.X.(*ssa.Alloc)
+	if !ok || al.Referrers() == nil {
+		return nil, false
+	}
+	arr, ok := deref(al.Type()).Underlying().(*types.Array)
+	if !ok {
+		return nil, false
+	}
+	n := int(arr.Len())
+	els := make([]ssa.Value, n)
+	for _, ref := range *al.Referrers() {
+		switch x := ref.(type) {
+		case *ssa.DebugRef:
+		case *ssa.Slice:
+			if x != sl {
+				return nil, false
+			}
+		case *ssa.IndexAddr:
+			k, isC := x.Index.(*ssa.Const)
+			if !isC || k.Value == nil || k.Value.Kind() != constant.Int || k.Int64() < 0 || k.Int64() >= int64(n) || x.Referrers() == nil {
+				return nil, false
+			}
+			for _, r2 := range *x.Referrers() {
+				st, isSt := r2.(*ssa.Store)
+				if !isSt || st.Addr != ssa.Value(x) || els[k.Int64()] != nil {
+					return nil, false
+				}
+				els[k.Int64()] = st.Val
+			}
+		default:
+			return nil, false
+		}
+	}
+	for _, e := range els {
+		if e == nil {
+			return nil, false
+		}
+	}
+	return els, true
+}
+
+func c19IsBuiltinCall(v ssa.Value, name string) (*ssa.Call, bool) {
+	c, ok := v.(*ssa.Call)
+	if !ok {
+		return nil, false
+	}
+	b, ok := c.Call.Value.(*ssa.Builtin)
+	if !ok || b.Name() != name {
+		return nil, false
+	}
+	return c, true
+}
+
+// c19AppendsOnPath: the values appended, in order, to the slice carried by the header phi hp on the
+// iteration path ip (which ends on the back edge): the value hp receives for the next iteration is hp
+// itself or a chain append(append(hp, a), b) resolved along the path. ok=false when the slice is changed in
+// any other way.
+func c19AppendsOnPath(ip *IterPath, hp *ssa.Phi) ([]ssa.Value, bool) {
+	next := ip.NextValue(hp)
+	if next == nil || len(ip.Blocks) < 2 {
+		return nil, false
+	}
+	sub := &IterPath{Blocks: ip.Blocks[:len(ip.Blocks)-1], End: "partial"}
+	var out []ssa.Value
+	v := next
+	for depth := 0; depth < 32; depth++ {
+		v = sub.Resolve(v)
+		if v == ssa.Value(hp) {
+			return out, true
+		}
+		c, ok := c19IsBuiltinCall(v, "append")
+		if !ok || len(c.Call.Args) != 2 {
+			return nil, false
+		}
+		els, ok := c19VarargElems(c.Call.Args[1])
+		if !ok {
+			return nil, false
+		}
+		out = append(append([]ssa.Value{}, els...), out...)
+		v = c.Call.Args[0]
+	}
+	return nil, false
+}
+
+// ---- the data a quantile is taken of ----
+
+func c19StripCT(v ssa.Value) ssa.Value {
+	for {
+		if ct, ok := v.(*ssa.ChangeType); ok {
+			v = ct.X
+			continue
+		}
+		return v
+	}
+}
+
+// c19HoldsSeries: at `use`, the slice v holds exactly the elements of the series fn was called on (its
+// first parameter): it is that series, a slice made with its length into which the whole series was
+// copied (a `copy(v, series)` dominates the use), `append` of the whole series to nothing, slices.Clone of
+// it, or what a repository function returns for it that is such a slice on every return. Sorting
+// rearranges the elements but neither adds nor removes one, so a sort in between does not matter here
+// (that it happens is the obligation ".sorted").
+func c19HoldsSeries(fn *ssa.Function, v ssa.Value, use ssa.Instruction, depth int) (bool, string) {
+	if len(fn.Params) == 0 {
+		return false, "the function has no series"
+	}
+	series := ssa.Value(fn.Params[0])
+	isSeries := func(x ssa.Value) bool { return c19StripCT(x) == series }
+	dominatesUse := func(in ssa.Instruction) bool {
+		b, ub := in.Block(), use.Block()
+		return (b == ub && instrIndex(in) < instrIndex(use)) || (b != ub && b.Dominates(ub))
+	}
+	v = c19StripCT(v)
+	if v == series {
+		return true, "the series itself"
+	}
+	switch x := v.(type) {
+	case *ssa.MakeSlice:
+		ln, ok := c19IsBuiltinCall(x.Len, "len")
+		if !ok || len(ln.Call.Args) != 1 || !isSeries(ln.Call.Args[0]) {
+			return false, "a slice whose length is not len(series)"
+		}
+		// the copy comes before the use and before every sort of the slice (copying into a sorted slice
+		// would bring back the order of the series)
+		var copies, sorts []ssa.Instruction
+		Instrs(fn, func(_ *ssa.BasicBlock, _ int, in ssa.Instruction) {
+			c, ok := in.(*ssa.Call)
+			if !ok {
+				return
+			}
+			if cc, isCopy := c19IsBuiltinCall(c, "copy"); isCopy && len(cc.Call.Args) == 2 {
+				if c19StripCT(cc.Call.Args[0]) == v && isSeries(cc.Call.Args[1]) && dominatesUse(c) {
+					copies = append(copies, c)
+				}
+				return
+			}
+			switch n, _ := calleeName(c.Common()); n {
+			case "sort.Float64s", "slices.Sort", "sort.Sort", "sort.Stable":
+				for _, a := range c.Call.Args {
+					if c19StripCT(stripPtr(a)) == v {
+						sorts = append(sorts, c)
+					}
+				}
+			}
+		})
+		before := func(a, b ssa.Instruction) bool {
+			return (a.Block() == b.Block() && instrIndex(a) < instrIndex(b)) || (a.Block() != b.Block() && a.Block().Dominates(b.Block()))
+		}
+		for _, c := range copies {
+			first := true
+			for _, s := range sorts {
+				if !before(c, s) {
+					first = false
+				}
+			}
+			if first {
+				return true, "a copy of the series"
+			}
+		}
+		if len(copies) > 0 {
+			return false, "a fresh slice into which the series is copied after it was sorted (the order of the series is back)"
+		}
+		return false, "a fresh slice of the series' length into which the series is not copied before the use (it holds zeros)"
+	case *ssa.Call:
+		if ap, ok := c19IsBuiltinCall(x, "append"); ok {
+			if len(ap.Call.Args) != 2 {
+				return false, "an append without elements"
+			}
+			base := c19StripCT(ap.Call.Args[0])
+			empty := false
+			if c, isC := base.(*ssa.Const); isC && c.Value == nil {
+				empty = true
+			}
+			if mk, isMk := base.(*ssa.MakeSlice); isMk && c19ConstIs(mk.Len, 0) {
+				empty = true
+			}
+			if empty && isSeries(ap.Call.Args[1]) {
+				return true, "the series appended to an empty slice"
+			}
+			return false, "an append that is not the whole series appended to an empty slice"
+		}
+		if n, _ := calleeName(x.Common()); n == "slices.Clone" && len(x.Call.Args) == 1 && isSeries(x.Call.Args[0]) {
+			return true, "a clone of the series"
+		}
+		callee := x.Call.StaticCallee()
+		if callee == nil || callee.Blocks == nil || !InRepo(callee) || depth > 3 || len(x.Call.Args) == 0 || !isSeries(x.Call.Args[0]) || len(callee.Params) == 0 {
+			return false, "the result of a call that is not known to return the series"
+		}
+		nret := 0
+		for _, b := range callee.Blocks {
+			ret, ok := b.Instrs[len(b.Instrs)-1].(*ssa.Return)
+			if !ok || len(ret.Results) == 0 {
+				continue
+			}
+			nret++
+			if ok, why := c19HoldsSeries(callee, ret.Results[0], ret, depth+1); !ok {
+				return false, callee.Name() + " returns " + why
+			}
+		}
+		if nret == 0 {
+			return false, callee.Name() + " does not return"
+		}
+		return true, "what " + callee.Name() + " returns: a slice holding the elements of the series"
+	}
+	return false, "a value that is not known to hold the elements of the series"
+}
+
+// c19NillableFields: the pointer fields that some function of the experiment package compares with nil -
+// the package's own statement that a record may lack them (Generation.Champion, Organism.Species,
+// Trial.WinnerGeneration).
+func c19NillableFields(p *Prog) map[types.Object]bool {
+	out := map[types.Object]bool{}
+	for _, fn := range p.SrcFuncs() {
+		if fn.Pkg == nil || fn.Pkg.Pkg.Path() != PkgE {
+			continue
+		}
+		Instrs(fn, func(_ *ssa.BasicBlock, _ int, in ssa.Instruction) {
+			b, ok := in.(*ssa.BinOp)
+			if !ok || (b.Op != token.EQL && b.Op != token.NEQ) {
+				return
+			}
+			for _, pr := range [][2]ssa.Value{{b.X, b.Y}, {b.Y, b.X}} {
+				c, isC := pr[1].(*ssa.Const)
+				if !isC || c.Value != nil {
+					continue
+				}
+				ld, isLd := pr[0].(*ssa.UnOp)
+				if !isLd || ld.Op != token.MUL {
+					continue
+				}
+				if fa, isFA := ld.X.(*ssa.FieldAddr); isFA {
+					if st, isSt := deref(fa.X.Type()).Underlying().(*types.Struct); isSt {
+						if _, isPtr := st.Field(fa.Field).Type().Underlying().(*types.Pointer); isPtr {
+							out[st.Field(fa.Field)] = true
+						}
+					}
+				}
+			}
+		})
+	}
+	return out
+}
+
+// c19DerefdNillable: the sub-terms of vt that are loads of a nillable pointer field through which a further
+// field is read (x.Champion in x.Champion.Fitness).
+func c19DerefdNillable(vt *Term, nillable map[types.Object]bool) []*Term {
+	var out []*Term
+	seen := map[string]bool{}
+	vt.Walk(func(x *Term) bool {
+		if x.Op == "field" && len(x.Args) == 1 {
+			b := x.Args[0]
+			for b.Op == "un" && b.Name == "&" && len(b.Args) == 1 {
+				b = b.Args[0]
+			}
+			if b.Op == "field" && b.Obj != nil && nillable[b.Obj] && !seen[c19Strip(b)] {
+				seen[c19Strip(b)] = true
+				out = append(out, b)
+			}
+		}
+		return true
+	})
 	return out
 }
